@@ -154,6 +154,32 @@ def report_mismatch(run, res, parts, oracle=None, tag=None):
     if not res['mismatches']:
         return False
     m = min(res['mismatches'], key=lambda x: x['step'])
+    if oracle is not None:
+        # prefer a disagreeing program on which the property oracle itself fires: that one is a failing input, not only a difference
+        seen = set()
+        for mm in sorted(res['mismatches'], key=lambda x: x['step'])[:60]:
+            if mm['prog'] in seen:
+                continue
+            seen.add(mm['prog'])
+            cand = res['programs'][mm['prog']]
+            try:
+                vs = oracle(cand)
+            except Exception:  # noqa
+                vs = None
+            if vs and not isinstance(vs, dict):
+                v = min(vs, key=lambda x: x.get('step', 0))
+                st = v.get('step', len(cand['ops']) - 1)
+                cut = rerun(cand['cfg'], cand['ops'][:st + 1])
+                vcut = None
+                try:
+                    vcut = oracle(cut)
+                except Exception:  # noqa
+                    pass
+                run.violation({'kind': 'correspondence+oracle', 'projection': [t2.PARTS[k] for k in parts],
+                               'n_disagreeing_programs': len(res['mismatches']), 'rule': v.get('rule'), 'detail': v.get('detail'), 'step': st,
+                               'program': light(cut if vcut else cand), 'model_differs_at_step': mm['step'],
+                               'how_to_replay': './check %s --replay <this file>' % run.pid}, concrete=True)
+                return True
     prog = res['programs'][m['prog']]
     small, sm = shrink(prog, parts, tag)
     if sm is None:
